@@ -187,3 +187,13 @@ package hh
 //@   at after segment.empty#1: ghost was_empty = callresult0
 //@   call queue.trimHead#1 requires only_an_exhausted_head_is_dropped: was_empty
 //@   call queue.trimHead#1 assume_callee_requires
+
+// ---- C04: after a restart every queue is re-opened on the directory it was written to ----
+// The queues live in <dir>/<node id>/<shard id>. Service.Open walks that tree and re-creates one processor per
+// leaf; the directory it hands to the processor (and the key it registers it under) must be the one it is looking
+// at - otherwise the blocks accepted before the restart are never delivered and the service reports itself empty.
+//@ func (*Service).Open
+//@   props C04
+//@   nosafety
+//@   call Service.pathforNodeShard#1 requires reopened_where_it_was_written: callarg1 == nodeID && callarg2 == shardID
+//@   call Service.setProcessor#1 requires registered_under_its_own_ids: callarg1 == nodeID && callarg2 == shardID
